@@ -549,7 +549,7 @@ Lemma trim_space_word s :
   Forall (fun c => word_char c = true) s ->
   trim_space s = rev (strip_l (rev (strip_l s))).
 Proof.
-  intros H. unfold trim_space, trim_left, trim_right.
+  intros H. unfold trim_space, trim_left, trim_right, rev'. rewrite <- !rev_alt.
   rewrite (trim_aux_word space_head s space_head_word H).
   rewrite (trim_aux_word space_last (rev (strip_l s)) space_last_word); [reflexivity|].
   apply Forall_rev. apply strip_l_sub. exact H.
